@@ -309,6 +309,80 @@ static string histStr(const vector<int>& h) {
   return s;
 }
 
+// A persistent worker process expands many states without a fork per state: before each history it
+// restores the pristine snapshot taken right after its start (errno, stream format, type cache).
+// It is only used where results are cross-checked against freshly forked processes (see main).
+struct Worker { pid_t pid = -1; FILE* to = nullptr; FILE* from = nullptr; };
+static Worker g_worker;
+static void workerLoop(int rfd, int wfd) {
+  FILE* in = fdopen(rfd, "r");
+  FILE* w = fdopen(wfd, "w");
+  Snap pristine;
+  g_errno = 0;
+  snapshot(&pristine);
+  char* line = nullptr;
+  size_t cap = 0;
+  while (getline(&line, &cap, in) > 0) {
+    vector<int> hist;
+    for (char* tok = strtok(line, " \n"); tok; tok = strtok(nullptr, " \n")) hist.push_back(atoi(tok));
+    restore(pristine);
+    for (int h : hist) execOp(g_ops[h]);
+    string before = canonicalState();
+    fprintf(w, "S %s\n", hexs(before).c_str());
+    Snap snap;
+    snapshot(&snap);
+    for (size_t i = 0; i < g_ops.size(); i++) {
+      string obs = execOp(g_ops[i]);
+      fprintf(w, "P %zu %s %s\n", i, hexs(obs).c_str(), hexs(canonicalState()).c_str());
+      restore(snap);
+      if (canonicalState() != before) { fprintf(w, "R %zu\n", i); break; }
+    }
+    fprintf(w, "E\n");
+    fflush(w);
+  }
+  _exit(0);
+}
+static bool startWorker() {
+  int a[2], b[2];
+  if (pipe(a) != 0 || pipe(b) != 0) return false;
+  fflush(stdout);
+  pid_t pid = fork();
+  if (pid == 0) { close(a[1]); close(b[0]); workerLoop(a[0], b[1]); }
+  close(a[0]); close(b[1]);
+  g_worker.pid = pid; g_worker.to = fdopen(a[1], "w"); g_worker.from = fdopen(b[0], "r");
+  return true;
+}
+static void stopWorker() {
+  if (g_worker.pid < 0) return;
+  fclose(g_worker.to);
+  int st; waitpid(g_worker.pid, &st, 0);
+  fclose(g_worker.from);
+  g_worker.pid = -1;
+}
+// expands one state (all operations probed) in the worker
+static Run runInWorker(const vector<int>& hist) {
+  Run run;
+  if (g_worker.pid < 0 && !startWorker()) return run;
+  string req;
+  for (int h : hist) req += std::to_string(h) + " ";
+  fprintf(g_worker.to, "%s\n", req.c_str());
+  fflush(g_worker.to);
+  run.probes.resize(g_ops.size());
+  char* line = nullptr; size_t cap = 0; size_t got = 0; bool ended = false;
+  while (getline(&line, &cap, g_worker.from) > 0) {
+    std::istringstream ls(line);
+    string tag; ls >> tag;
+    if (tag == "S") { string h; ls >> h; run.stateAfterHistory = unhexs(h); }
+    else if (tag == "P") { size_t i; string x, y; ls >> i >> x >> y; run.probes[i].obs = unhexs(x); run.probes[i].state = unhexs(y); got++; }
+    else if (tag == "R") { got = 0; }
+    else if (tag == "E") { ended = true; break; }
+  }
+  free(line);
+  run.ok = ended && got == g_ops.size();
+  R.transitions += hist.size() + g_ops.size();
+  return run;
+}
+
 // which hidden component makes the probe deviate: clear it and look whether the baseline comes back
 static std::map<string, string> g_causeMemo;
 static string diagnose(const vector<int>& hist, int probe, const string& state, const string& baseline) {
@@ -572,10 +646,19 @@ int main(int argc, char** argv) {
   if (rep) R.state(base.stateAfterHistory);
   size_t maxDepth = (size_t)A.getInt("maxdepth", 24), deepest = 0;
   bool capped = false;
+  uint64_t expanded = 0;
   while (!queue.empty() && !R.expired()) {
     Node nd = queue.front(); queue.pop_front();
     deepest = std::max(deepest, nd.hist.size());
-    Run r = runHistory(nd.hist, allOps, FIX_NONE, false);
+    Run r = runInWorker(nd.hist);
+    if (r.ok && (nd.hist.size() <= 2 || (expanded++ % 32) == 0)) {
+      // the worker (snapshot restore) must agree with a freshly forked process
+      Run f = runHistory(nd.hist, allOps, FIX_NONE, false);
+      bool same = f.ok && f.stateAfterHistory == r.stateAfterHistory;
+      for (size_t p = 0; same && p < nOps; p++) same = f.probes[p].obs == r.probes[p].obs && f.probes[p].state == r.probes[p].state;
+      if (rep) R.count("worker_vs_fork_crosschecks");
+      if (!same) R.violation("C12/harness/restore-incomplete/worker", "worker and fresh fork disagree after history " + histStr(nd.hist), "k=hist;h=" + histStr(nd.hist) + ";p=" + g_ops[0].id);
+    }
     if (!r.ok) { R.violation("C12/harness/child-failed/replay", "child process failed for history " + histStr(nd.hist), "k=hist;h=" + histStr(nd.hist) + ";p=" + g_ops[0].id); continue; }
     if (r.stateAfterHistory != nd.state) {
       // the canonical state must be reproduced by replaying the history
@@ -615,7 +698,7 @@ int main(int argc, char** argv) {
     std::function<void()> rec = [&]() {
       if (R.expired()) return;
       if (!h.empty()) {
-        Run r = runHistory(h, allOps, FIX_NONE, false);
+        Run r = h.size() <= 2 ? runHistory(h, allOps, FIX_NONE, false) : runInWorker(h);
         if (!r.ok) { R.violation("C12/harness/child-failed/stateless", "child process failed for history " + histStr(h), "k=hist;h=" + histStr(h) + ";p=" + g_ops[0].id); return; }
         R.count("stateless_histories");
         if (!visited.count(r.stateAfterHistory))
@@ -639,6 +722,8 @@ int main(int argc, char** argv) {
     };
     rec();
   }
+
+  stopWorker();
 
   // (c) load order
   int nT = (int)A.getInt("templates", thorough ? 4 : 3), nM = (int)A.getInt("messages", thorough ? 6 : 4);
